@@ -95,6 +95,9 @@ Filtered(e) ==
       D == SelectRows(Abs(pre), pre.shape, mask)
   IN IF e.exc THEN {"C06:raised"}
      ELSE Target("C06", Rep(e.ret), e.ret.valraise, FilterShape(pre.shape, mask), D, ModalOrAny(D), 0)
+          \* A[mask] is a new array even when the mask keeps every row: were the result the receiver itself, the next in-place
+          \* operation on either would change both
+          \cup If(e.shares, "C06:result-is-the-receiver-itself")
           \cup Unchanged("C17:receiver-changed", <<e.recv>>, <<e.recvpost>>)
 
 SlicedOp(e) ==
@@ -133,6 +136,7 @@ Collapsed(e) ==
       D == Collapse(Abs(pre), pre.shape, a.precedence, m)
   IN IF e.exc THEN {"C06:raised"}
      ELSE Target("C06", Rep(e.ret), e.ret.valraise, <<pre.shape[1]>>, D, ModalOrAny(D), 0)
+          \cup If(e.shares, "C06:result-is-the-receiver-itself")
           \cup Unchanged("C17:receiver-changed", <<e.recv>>, <<e.recvpost>>)
 
 Copy(e) ==
